@@ -1,0 +1,63 @@
+//go:build verif
+
+package agent
+
+// Hooks for the out-of-tree verification harness (build tag verif). Add-only: nothing here is
+// compiled into a normal build. The WebSocket-agent message codec (marshalCbor / unmarshalCbor and
+// the five message types) is unexported; the harness drives it through these wrappers.
+
+import (
+	"io"
+
+	"github.com/dtn7/dtn7-go/pkg/bpv7"
+)
+
+// VerifWam is a structural view of a webAgentMessage: Code is the type code, the other fields are
+// used as the type requires.
+type VerifWam struct {
+	Code     uint64
+	Text     string // status: error message, register: endpoint, syscall request/response: request
+	Response []byte // syscall response
+	Bundle   bpv7.Bundle
+}
+
+// VerifWamMarshal builds the message of the given view and writes it with marshalCbor.
+func VerifWamMarshal(v VerifWam, w io.Writer) error {
+	var wam webAgentMessage
+	switch v.Code {
+	case wamStatusCode:
+		wam = &wamStatus{errorMsg: v.Text}
+	case wamRegisterCode:
+		wam = newRegisterMessage(v.Text)
+	case wamBundleCode:
+		wam = newBundleMessage(v.Bundle)
+	case wamSyscallRequestCode:
+		wam = newSyscallRequestMessage(v.Text)
+	default:
+		wam = newSyscallResponseMessage(v.Text, v.Response)
+	}
+	return marshalCbor(wam, w)
+}
+
+// VerifWamUnmarshal reads one message with unmarshalCbor and returns its view.
+func VerifWamUnmarshal(r io.Reader) (v VerifWam, err error) {
+	wam, err := unmarshalCbor(r)
+	if err != nil {
+		return
+	}
+	v.Code = wam.typeCode()
+	switch m := wam.(type) {
+	case *wamStatus:
+		v.Text = m.errorMsg
+	case *wamRegister:
+		v.Text = m.endpoint
+	case *wamBundle:
+		v.Bundle = m.b
+	case *wamSyscallRequest:
+		v.Text = m.request
+	case *wamSyscallResponse:
+		v.Text = m.request
+		v.Response = m.response
+	}
+	return
+}
